@@ -1,6 +1,7 @@
 ---------------------------- MODULE BalanceTrace ----------------------------
 (* Trace validation for Balance (C02).  A trace is one recorded call of                      *)
-(* balance_stoichiometry: the problem as the events Shape, SetEntry*, Classify, [Dupl], Mode  *)
+(* balance_stoichiometry: the problem as the events Shape, SetEntry*, Classify, [Witness],   *)
+(* [Dupl], Mode                                                                              *)
 (* followed by Result(obs).  The events are replayed through the actions of Balance; the     *)
 (* Result event fires Accept(obs), which is enabled iff the observed outcome is admissible   *)
 (* for the class TLC computed.  Batch protocol as in FormulaTrace: Init picks a trace id,    *)
@@ -25,6 +26,7 @@ Step(e) ==
     CASE e.ev = "Shape"    -> ChooseShape(e.nr, e.np, e.nk, e.crow, e.scale)
       [] e.ev = "SetEntry" -> SetEntry(e.k, e.j, e.v)
       [] e.ev = "Classify" -> Classify
+      [] e.ev = "Witness"  -> Witness(e.x)
       [] e.ev = "Dupl"     -> ChooseDupl(PairSet(e.pairs))
       [] e.ev = "Mode"     -> ChooseMode(e.m)
       [] OTHER             -> FALSE
